@@ -113,7 +113,10 @@ SYNTHESISING = NGRAMS | {"tee", "compound", "compound_nokeep", "path", "delimite
 def strategy(tier):
     return st.fixed_dictionaries({
         "text": text_s(),
-        "analyzer": st.sampled_from(sorted(ANALYZERS)),
+        # every analyzer, with extra weight on the ones whose index- and query-time chains differ or that synthesise tokens
+        "analyzer": st.one_of(st.sampled_from(sorted(ANALYZERS)), st.sampled_from(sorted(ANALYZERS)),
+                              st.sampled_from(["intraword_multi", "intraword_multi", "intraword_merge", "fancy", "ngramwords",
+                                               "charset", "stemming"])),
         "ftype": st.sampled_from(["text", "text", "text", "text_chars", "text_chars", "keyword", "id", "ngram_field",
                                   "ngramwords_field"]),
         "fragmenter": st.sampled_from(["context", "sentence", "whole", "pinpoint"]),
@@ -239,6 +242,22 @@ def run(case, out):
                      {"text": text, "query_tokens": qtexts[:10], "index_tokens": [t[0] for t in itoks][:10], "ftype": ftype})
             return
         parser = qparser.QueryParser("f", schema)
+        if name in ("intraword_multi", "intraword", "intraword_merge", "substitution") and ftype in ("text", "text_chars"):
+            # analyzers whose tokenizer keeps whole whitespace-separated words: the word as the user types it
+            # (Wi-Fi, PowerShot, SD-500-42) must find the document through the parser, whose query-mode analysis may
+            # split it differently from the index-mode one (MultiFilter)
+            for piece in text.split()[:6]:
+                if not re.match(r"^[A-Za-z0-9][A-Za-z0-9_-]*[A-Za-z0-9]$", piece) or piece.upper() in (
+                        "AND", "OR", "NOT", "TO", "ANDNOT", "ANDMAYBE", "REQUIRE"):
+                    continue
+                if not list(schema["f"].process_text(piece, mode="query")):
+                    continue
+                pq = parser.parse(piece)
+                if not finds(pq):
+                    out.fail("c17.parsed_word_does_not_find_document:%s" % name,
+                             {"text": text, "word": piece, "parsed": repr(pq)[:200]})
+                    return
+                out.label("parsed_intraword_word")
         for piece in re.findall(r"\w+", text)[:6]:
             if piece.upper() in ("AND", "OR", "NOT", "TO", "ANDNOT", "ANDMAYBE", "REQUIRE"):
                 continue
@@ -304,6 +323,15 @@ def run(case, out):
                     return
                 last = pos
         if name in NGRAMS:
+            # query mode too (the stand-alone highlight() function analyses the text in query mode)
+            for t, pos, sc, ec in toks(ana, text, "query"):
+                if sc is not None and text[sc:ec].lower() != t and text[sc:ec] != t:
+                    word = re.search(r"\S*$", text[:sc]).group(0) + re.match(r"\S*", text[sc:]).group(0)
+                    if any(len(ch.lower()) != 1 for ch in word):
+                        continue   # recorded finding (length-changing lowercase)
+                    out.fail("c17.query_mode_offsets_do_not_delimit_token:%s" % name,
+                             {"text": text, "token": t, "slice": text[sc:ec], "offsets": [sc, ec], "ftype": ftype})
+                    return
             for t, pos, sc, ec in itoks:
                 if sc is not None and text[sc:ec].lower() != t and text[sc:ec] != t:
                     # known finding: a LowercaseFilter in front of NgramFilter changes the length of the word
